@@ -7,7 +7,7 @@ PassFailResult.evaluate (argument wiring).  The filters themselves are C10's con
 arguments, so a mis-wired call site changes the term).
 """
 from pyvc.api import *
-from pyvc.lemmas import count_fn, add_count_lemmas
+from pyvc.lemmas import count_fn, add_count_lemmas, pred_fn
 import contracts.C10 as C10
 
 OR = "evaluation.result.object_result"
@@ -155,6 +155,77 @@ def build(P):
              extra_contracts={idx.lookup(f"{OR}:DynamicObjectWithPerceptionResult.get_status").fq: sc_cut,
                               idx.lookup("common.threshold:get_label_threshold").fq: threshold_named(),
                               idx.lookup(f"{OR}:DynamicObjectWithPerceptionResult.__init__").fq: ctor})
+    # ---------------------------------------------------------------- get_negative_objects: FN / TN lists
+    # status of result k at the threshold of its ground truth's label (its estimate's label when unpaired): the statement's accounting
+    lab_of = lambda r: f"({r}.ground_truth_object.semantic_label.label if {r}.ground_truth_object is not None else {r}.estimated_object.semantic_label.label)"
+    thr2 = lambda r: (f"uf_bool('thr_none', {lab_of(r)}, target_labels, matching_threshold_list)", f"uf_real('thr', {lab_of(r)}, target_labels, matching_threshold_list)")
+    cor2 = lambda r: f"uf_bool('correct', {r}, matching_mode, {thr2(r)[0]}, {thr2(r)[1]})"
+    gfp = lambda r: f"({r}.ground_truth_object.semantic_label.label is AutowareLabel.FP)"
+    res_tn = lambda r: f"({r}.ground_truth_object is not None and {cor2(r)} and {gfp(r)})"
+    res_fn = lambda r: f"({r}.ground_truth_object is not None and (not {cor2(r)}) and not {gfp(r)})"
+    R_ = lambda k: f"object_results[{k}]"
+    G_ = lambda j: f"ground_truth_objects[{j}]"
+    same_value = lambda a, b: f"uf_bool('same_object_value', {a}, {b})"
+    # the paired ground truths enumerated by rank: nth_paired(paired_before(k)) is the ground truth of result k (ghost function)
+    def nth_paired_ghost(it, fr):
+        import z3 as _z3
+        from pyvc.ops import to_int_z
+        f = _z3.Function("nth_paired", I, I)
+        return VSpecFn(lambda interp, a: VSObj(f(to_int_z(a[0])), "DynamicObject"), "nth_paired")
+    matched_x = lambda j: f"exists(c, 0, paired_before(len(object_results)), {same_value('nth_paired(c)', G_(j))})"
+    mg, md = pred_fn("gt_matched", 1)
+    matched = lambda j: f"gt_matched({j})"
+    un_tn = lambda j: f"((not {matched(j)}) and ({G_(j)}.semantic_label.label is AutowareLabel.FP))"
+    un_fn = lambda j: f"((not {matched(j)}) and not ({G_(j)}.semantic_label.label is AutowareLabel.FP))"
+    g1, d1 = count_fn("tn_results_before")
+    g2, d2 = count_fn("fn_results_before")
+    g3, d3 = count_fn("paired_before")
+    g4, d4 = count_fn("unmatched_tn_before")
+    g5, d5 = count_fn("unmatched_fn_before")
+    nR, nG = "len(object_results)", "len(ground_truth_objects)"
+    DL = TSList(DO) if False else None
+    DOL = TSList(TSObj("DynamicObject"))
+    paired = lambda k: f"({R_(k)}.ground_truth_object is not None)"
+    inv1 = E("lists_are_new", "not is_old(tn_objects) and not is_old(fn_objects) and not is_old(non_candidates) and distinct(tn_objects, fn_objects, non_candidates)",
+             "lengths", "len(tn_objects) == tn_results_before(i) and len(fn_objects) == fn_results_before(i) and len(non_candidates) == paired_before(i)",
+             "tn_from_results", "forall(k, 0, i, implies(" + res_tn(R_('k')) + ", tn_objects[tn_results_before(k)] is " + R_('k') + ".ground_truth_object))",
+             "fn_from_results", "forall(k, 0, i, implies(" + res_fn(R_('k')) + ", fn_objects[fn_results_before(k)] is " + R_('k') + ".ground_truth_object))",
+             "non_candidates_are_the_paired_ground_truths", "forall(k, 0, i, implies(" + paired('k') + ", non_candidates[paired_before(k)] is " + R_('k') + ".ground_truth_object))",
+             "non_candidates_by_rank", "forall(c, 0, len(non_candidates), non_candidates[c] is nth_paired(c))")
+    inv2 = E("lists_are_new", "not is_old(tn_objects) and not is_old(fn_objects) and not is_old(non_candidates) and distinct(tn_objects, fn_objects, non_candidates)",
+             "lengths", f"len(tn_objects) == tn_results_before({nR}) + unmatched_tn_before(j) and len(fn_objects) == fn_results_before({nR}) + unmatched_fn_before(j) and len(non_candidates) == paired_before({nR})",
+             "tn_from_results", f"forall(k, 0, {nR}, implies(" + res_tn(R_('k')) + ", tn_objects[tn_results_before(k)] is " + R_('k') + ".ground_truth_object))",
+             "fn_from_results", f"forall(k, 0, {nR}, implies(" + res_fn(R_('k')) + ", fn_objects[fn_results_before(k)] is " + R_('k') + ".ground_truth_object))",
+             "non_candidates_are_the_paired_ground_truths", f"forall(k, 0, {nR}, implies(" + paired('k') + ", non_candidates[paired_before(k)] is " + R_('k') + ".ground_truth_object))",
+             "non_candidates_by_rank", "forall(c, 0, len(non_candidates), non_candidates[c] is nth_paired(c))",
+             "unmatched_tn_so_far", f"forall(m, 0, j, implies({un_tn('m')}, tn_objects[tn_results_before({nR}) + unmatched_tn_before(m)] is {G_('m')}))",
+             "unmatched_fn_so_far", f"forall(m, 0, j, implies({un_fn('m')}, fn_objects[fn_results_before({nR}) + unmatched_fn_before(m)] is {G_('m')}))")
+    eq_named = Contract("common.object:DynamicObject.__eq__", params={}, returns=TBool(),
+                        ensures=E("named", "result == (other is not None and " + same_value("self", "other") + ")"))
+    c_neg = Contract(
+        f"{OF}:get_negative_objects",
+        params={"ground_truth_objects": DOL, "object_results": RT, "target_labels": Opt(TSList(AL)), "matching_mode": TEnum(MM), "matching_threshold_list": Opt(TSList(TReal()))},
+        returns=TTuple(DOL, DOL),
+        locals={"tn_objects": DOL, "fn_objects": DOL, "non_candidates": DOL},
+        ghosts={"tn_results_before": g1, "fn_results_before": g2, "paired_before": g3, "unmatched_tn_before": g4, "unmatched_fn_before": g5, "gt_matched": mg, "nth_paired": nth_paired_ghost},
+        defs=[("nth_paired.def", f"forall(k, 0, {nR}, implies({paired('k')}, nth_paired(paired_before(k)) is {R_('k')}.ground_truth_object))")] + md(matched_x, nG) + d1(lambda k: res_tn(R_(k)), nR) + d2(lambda k: res_fn(R_(k)), nR) + d3(paired, nR) + d4(un_tn, nG) + d5(un_fn, nG),
+        requires=E("one_threshold_per_label", "implies(target_labels is not None and matching_threshold_list is not None, len(matching_threshold_list) == len(target_labels))",
+                   "an_object_equals_itself", f"forall(m, 0, {nG}, {same_value(G_('m'), G_('m'))})"),
+        loops={1: LoopSpec(index="i", invariants=inv1), 2: LoopSpec(index="j", invariants=inv2)},
+        ensures=E("tn_count", f"len(result[0]) == tn_results_before({nR}) + unmatched_tn_before({nG})",
+                  "fn_count", f"len(result[1]) == fn_results_before({nR}) + unmatched_fn_before({nG})",
+                  "tn_are_the_tn_pairs_then_the_unmatched_fp_labelled_ground_truths",
+                  f"forall(k, 0, {nR}, implies(" + res_tn(R_('k')) + ", result[0][tn_results_before(k)] is " + R_('k') + ".ground_truth_object)) and "
+                  f"forall(m, 0, {nG}, implies({un_tn('m')}, result[0][tn_results_before({nR}) + unmatched_tn_before(m)] is {G_('m')}))",
+                  "fn_are_the_failing_pairs_then_the_unmatched_ordinary_ground_truths",
+                  f"forall(k, 0, {nR}, implies(" + res_fn(R_('k')) + ", result[1][fn_results_before(k)] is " + R_('k') + ".ground_truth_object)) and "
+                  f"forall(m, 0, {nG}, implies({un_fn('m')}, result[1][fn_results_before({nR}) + unmatched_fn_before(m)] is {G_('m')}))",
+                  "inputs_untouched", f"len(object_results) == old({nR}) and len(ground_truth_objects) == old({nG})"))
+    P.verify(f"{OF}:get_negative_objects", name="get_negative_objects", contract=c_neg,
+             extra_contracts={idx.lookup(f"{OR}:DynamicObjectWithPerceptionResult.get_status").fq: status_contract(P),
+                              idx.lookup("common.threshold:get_label_threshold").fq: threshold_named(),
+                              idx.lookup("common.object:DynamicObject.__eq__").fq: eq_named})
+
     # ---------------------------------------------------------------- PassFailResult.evaluate: which lists, which mode, which thresholds
     PFC = idx.lookup(f"{PF}:PassFailResult")
     ET = idx.lookup("common.evaluation_task:EvaluationTask")
